@@ -2,6 +2,7 @@ package yaml
 
 import (
 	"github.com/lmorg/murex/lang/stdio"
+	yaml "gopkg.in/yaml.v3"
 )
 
 type arrayWriter struct {
@@ -13,13 +14,20 @@ func newArrayWriter(writer stdio.Io) (stdio.ArrayWriter, error) {
 	return w, nil
 }
 
+// Write appends one element to the YAML sequence. The element is written as a
+// YAML string scalar (quoted / escaped by the YAML encoder where needed), so
+// that text such as "", "1", "true", "a: b" or "#x" is read back as the same
+// string instead of null, a number, a boolean, a map or a comment.
 func (w *arrayWriter) Write(b []byte) error {
-	_, err := w.writer.Writeln(append([]byte{'-', ' '}, b...))
-	return err
+	return w.WriteString(string(b))
 }
 
 func (w *arrayWriter) WriteString(s string) error {
-	_, err := w.writer.Writeln([]byte("- " + s))
+	scalar, err := yaml.Marshal(s)
+	if err != nil {
+		return err
+	}
+	_, err = w.writer.Write(append([]byte{'-', ' '}, scalar...))
 	return err
 }
 
